@@ -11,6 +11,7 @@ mcMenu == << << P("fn"), Q("fn"), W("fn"), Z("fn") >>,
              << P("fn"), Q("fn"), W("fn"), Z("fail") >>,
              << P("fail"), Q("fail"), W("fn"), Z("fn") >>,
              << P("fn"), MkRule(<<"q">>, <<"b">>, "fn", "c2", 1, <<>>, FALSE, FALSE), W("fn"), Z("fn") >>,
-             << MkRule(<<"p">>, <<"a">>, "fn", "c1", 0, <<>>, FALSE, TRUE), Q("fn"), W("fn"), Z("fn") >> >>
+             << MkRule(<<"p">>, <<"a">>, "fn", "c1", 0, <<>>, FALSE, TRUE), Q("fn"), W("fn"), Z("fn") >>,
+             << P("fn"), Killed(MkRule(<<"q">>, <<"b">>, "fn", "c2", 0, <<>>, FALSE, TRUE)), W("fn"), Z("fn") >> >>
 mcInit == << <<"a", "S0">>, <<"b", "S0">> >>
 ====
